@@ -127,10 +127,7 @@ def sql_oracle(c, out):
         return (None, f"a query failed: {json.dumps(bad)[:150]}")
     ks = c["ks"]
     key = sort_key(ks)
-    klass = None
-    # the known finding needs more than one row-set at query time: after a compaction pass there is one
-    if c["engine"] == "disk" and c["pk"] and ks[0] == (0, False) and c["n_ins"] > 1 and not c["compacted"]:
-        klass = "KF_C12_order_by_pk_multi_rowset"
+    klass = None   # (ORDER BY <primary key> over several row-sets was a known finding; repaired by f86a898)
     if sorted(map(json.dumps, base)) != sorted(map(json.dumps, c["rows"])):
         return (None, f"the table holds {len(base)} rows, {len(c['rows'])} expected")
     if sorted(map(json.dumps, full)) != sorted(map(json.dumps, base)):
